@@ -36,6 +36,7 @@ type c09case struct {
 	Flags []string  `json:"flags"`
 	Prior bool      `json:"prior_success"` // every task has succeeded on these inputs before the failing (forced) run
 	Clean bool      `json:"via_clean"`     // the last task is named clean and is run through `spok --clean`
+	Deflt bool      `json:"via_default"`   // the last task is named default and is run by giving no task names
 }
 
 func (k c09case) key() string { b, _ := json.Marshal(k); return string(b) }
@@ -97,7 +98,19 @@ func c09Gen(r *core.Rng) c09case {
 			k.Prior = true
 		}
 	}
-	if !k.Prior && r.Chance(12) {
+	if !k.Prior && r.Chance(10) {
+		last := &k.Tasks[len(k.Tasks)-1]
+		last.Name = "default"
+		k.Req = []string{"default"}
+		k.Deflt = true
+		fails := false
+		for _, cmd := range last.Cmds {
+			fails = fails || cmd.Fail
+		}
+		if !fails && r.Bool() {
+			last.Cmds[len(last.Cmds)-1] = c09cmd{Fail: true, Form: "exit", Status: 4}
+		}
+	} else if !k.Prior && r.Chance(12) {
 		// a user-defined clean task is an executed task like any other
 		last := &k.Tasks[len(k.Tasks)-1]
 		last.Name = "clean"
@@ -215,6 +228,9 @@ func c09Judge(c *core.Ctx, k c09case, res *core.ShardResult) (vs []core.Violatio
 		args := append(append([]string{}, flags...), k.Req...)
 		if k.Clean {
 			args = append(append([]string{}, flags...), "--clean")
+		}
+		if k.Deflt {
+			args = append([]string{}, flags...) // no task names at all
 		}
 		inv := core.RunSpok(core.SpokOpts{Bin: c.SpokRace(), Dir: sb.Proj, Home: sb.Home, Args: args})
 		res.Evaluations++
